@@ -31,7 +31,7 @@ REAL_VS_STUB = {
     "real": ["stackscope.extract and every hook dispatcher / built-in glue", "contextlib", "threading", "greenlet (3.12 leg)"],
     "stub": ["generated programs", "synthetic item types", "wrappers that count and raise at the k-th invocation"],
 }
-RARE_PROBES = ["pairs_injected", "fault_in_nested_stack", "exception_group_seen", "scn_program", "scn_thread", "scn_greenlet", "scn_items", "scn_object"]
+RARE_PROBES = ["late_faults", "pairs_injected", "fault_in_nested_stack", "exception_group_seen", "scn_program", "scn_thread", "scn_greenlet", "scn_items", "scn_object"]
 LEGS = [
     {"name": "faults312", "python": "3.12", "quick": 1600, "thorough": 40000, "quick_s": 50, "thorough_s": 420, "run_timeout": 60},
     {"name": "faults311", "python": "3.11", "quick": 600, "thorough": 15000, "quick_s": 40, "thorough_s": 300, "run_timeout": 60},
@@ -53,6 +53,7 @@ class Recorder(object):
     def __init__(self):
         self.calls = []  # hook names in dynamic order
         self.inject_at = set()
+        self.after = False
         self.injected = []  # (k, hook, exception, building_root, frame_arg)
         self.installed = False
 
@@ -78,6 +79,12 @@ class Recorder(object):
                     farg = None
                     if frame_arg_index is not None and a:
                         farg = a[frame_arg_index]
+                    if rec.after:
+                        # the hook does (part of) its work, then fails
+                        try:
+                            orig(*a, **kw)
+                        except Exception:
+                            pass
                     rec.injected.append((k, hook, e, rec.building(), farg))
                     raise e
                 return orig(*a, **kw)
@@ -358,6 +365,7 @@ class GreenletScenario(Scenario):
 
 class ItemsScenario(Scenario):
     kind = "items"
+    stateful_hooks = True  # scripts are consumed per call: calling a hook twice would shift them
 
     def __init__(self, ctx):
         from . import c10
@@ -511,6 +519,15 @@ def run(ctx):
             positions = sorted(pick)
         for k in positions:
             inject(ctx, scn, rec, [k], st0, stacks0, base_errors)
+            # the same fault raised after the hook's own body has run (a hook that
+            # fails late, having already edited the frame / context)
+            if base_calls[k] in ("elaborate_frame", "elaborate_context", "unwrap_context") and not getattr(scn, "stateful_hooks", False):
+                rec.after = True
+                try:
+                    inject(ctx, scn, rec, [k], st0, stacks0, base_errors)
+                    ctx.stat("late_faults")
+                finally:
+                    rec.after = False
         # sampled pairs
         if n >= 2:
             for _ in range(min(12, n)):
